@@ -13,6 +13,10 @@
      0x04BC SHRFMLA   len >= 8:  shared.insert(fmla_pos, &data[8..])
      0x0221 ARRAY     len >= 12: shared.insert(fmla_pos, &data[12..])
      0x000A EOF       break
+     before that match (commit "fix: records of a chart substream nested in an xls worksheet ..."):
+     0x0809 BOF       depth += 1; continue        (depth: the substreams open at this record; the sheet's
+     depth > 1        EOF: depth -= 1; continue    own BOF makes it 1, the BOF of an embedded chart 2: a
+                      anything else: continue      FORMULA / SHRFMLA / ARRAY record in there is not the sheet's)
      after the loop   for (i, first) in exp_cells { if let Some(rgce) = shared.get(&first) {
                         if let Ok(f) = parse_formula(rgce, .., Some(formulas[i].pos)) { formulas[i].val = f } } }
    Representation: the index list [exp_cells] is kept as an option tag on each formula cell (the loop
@@ -90,19 +94,21 @@ Definition xls_formula_rec (d : list N) (st : fstate) : outcome fstate :=
         fs_cells := fs_cells st ++ [((row, col), text, exp_target rgce)];
         fs_shared := fs_shared st |}.
 
-Fixpoint xls_formula_loop (recs : list record) (st : fstate) : outcome fstate :=
+Fixpoint xls_formula_loop (recs : list record) (st : fstate) (depth : N) : outcome fstate :=
   match recs with
   | [] => Ok st
   | (t, d) :: rest =>
-      if t =? 0x000A then Ok st
-      else if t =? 0x0006 then do st' <- xls_formula_rec d st; xls_formula_loop rest st'
+      if t =? 0x0809 then xls_formula_loop rest st (depth + 1)
+      else if 1 <? depth then xls_formula_loop rest st (if t =? 0x000A then depth - 1 else depth)
+      else if t =? 0x000A then Ok st
+      else if t =? 0x0006 then do st' <- xls_formula_rec d st; xls_formula_loop rest st' depth
       else if (t =? 0x04BC) && (8 <=? length d)%nat then
         xls_formula_loop rest {| fs_pos := fs_pos st; fs_cells := fs_cells st;
-                                 fs_shared := (fs_pos st, skipn 8 d) :: fs_shared st |}
+                                 fs_shared := (fs_pos st, skipn 8 d) :: fs_shared st |} depth
       else if (t =? 0x0221) && (12 <=? length d)%nat then
         xls_formula_loop rest {| fs_pos := fs_pos st; fs_cells := fs_cells st;
-                                 fs_shared := (fs_pos st, skipn 12 d) :: fs_shared st |}
-      else xls_formula_loop rest st
+                                 fs_shared := (fs_pos st, skipn 12 d) :: fs_shared st |} depth
+      else xls_formula_loop rest st depth
   end.
 
 (* the pass over exp_cells after the loop *)
@@ -124,9 +130,10 @@ Definition resolve_cell (shared : list (pos * list N)) (c : fcell) : outcome (po
       end
   end.
 
-(* the (position, text) cells handed to Range::from_sparse for one sheet *)
+(* the (position, text) cells handed to Range::from_sparse for one sheet; [recs] = the records of
+   the substream from its own BOF on *)
 Definition xls_sheet_formulas (recs : list record) : outcome (list (pos * list N)) :=
-  do st <- xls_formula_loop recs {| fs_pos := (0, 0); fs_cells := []; fs_shared := [] |};
+  do st <- xls_formula_loop recs {| fs_pos := (0, 0); fs_cells := []; fs_shared := [] |} 0;
   map_o (resolve_cell (fs_shared st)) (fs_cells st).
 
 (* worksheet_formula of the sheet: xls keeps every FORMULA cell *)
@@ -144,7 +151,12 @@ Inductive fitem :=
 | FArray (p : pos) (hd : list N) (rng : N * N * N * N) (flags : N) (e : expr)
     (* the first cell of an array formula: FORMULA [PtgExp p], then ARRAY *)
 | FMember (p : pos) (hd : list N) (first : pos)                (* another cell of a group: PtgExp first *)
-| FOther (t : N) (d : list N).                                 (* a record the formula side ignores *)
+| FOther (t : N) (d : list N)                                  (* any other record of the sheet itself *)
+| FSub (bof : list N) (recs : list record).
+    (* a substream nested in the sheet — BOF, its records, EOF: the chart of an embedded chart object
+       ([MS-XLS] 2.1.7.20.5 OBJECTS -> CHART = BOF CHARTSHEETCONTENT … EOF; Excel 97-2003 writes one per
+       chart on the sheet).  The records are ANY records, FORMULA / SHRFMLA / ARRAY and further
+       BOF … EOF pairs included, provided BOF and EOF balance; none of them is a formula of the sheet *)
 
 Definition enc_formula_rec (p : pos) (hd cpf : list N) : record :=
   (0x0006, le 2 (fst p) ++ le 2 (snd p) ++ hd ++ cpf).
@@ -163,7 +175,13 @@ Definition enc_fitem (it : fitem) : list record :=
        (0x0221, enc_refu rng ++ le 2 flags ++ [0; 0; 0; 0] ++ frame_xls (encode_xls e))]
   | FMember p hd first => [enc_formula_rec p hd (cpf_exp first)]
   | FOther t d => [(t, d)]
+  | FSub bof recs => (0x0809, bof) :: recs ++ [(0x000A, [])]
   end.
+
+(* the records of a whole sheet substream: its BOF (the body is not read), the items, EOF, and
+   whatever follows in the stream (the next substream) *)
+Definition enc_fsheet (bof : list N) (l : list fitem) (after : list record) : list record :=
+  (0x0809, bof) :: flat_map enc_fitem l ++ (0x000A, []) :: after.
 
 (* the group whose first cell is [first]: (is it an array formula, its expression) *)
 Fixpoint group_of (l : list fitem) (first : pos) : option (bool * expr) :=
@@ -188,6 +206,7 @@ Definition spec_cell (l : list fitem) (it : fitem) : list (pos * list N) :=
   | FMember p _ first =>
       [(p, match group_of l first with Some g => group_text p g | None => [] end)]
   | FOther _ _ => []
+  | FSub _ _ => []                       (* nothing in a nested substream is a formula of the sheet *)
   end.
 Definition spec_formulas (l : list fitem) : list (pos * list N) := flat_map (spec_cell l) l.
 
@@ -199,13 +218,25 @@ Definition small (e : expr) : bool := N.of_nat (length (encode_xls e)) <? 65536.
 Definition first_of (it : fitem) : list pos :=
   match it with FShared p _ _ _ _ | FArray p _ _ _ _ => [p] | _ => [] end.
 
+(* BOF and EOF balance inside a nested substream: [d] further substreams are open before the
+   first record, none at the end, no EOF closes more than were opened *)
+Fixpoint fbalanced (d : nat) (recs : list record) : bool :=
+  match recs with
+  | [] => match d with O => true | S _ => false end
+  | r :: rest =>
+      if fst r =? 0x0809 then fbalanced (S d) rest
+      else if fst r =? 0x000A then match d with O => false | S d' => fbalanced d' rest end
+      else fbalanced d rest
+  end.
+
 Definition wf_fitem (it : fitem) : bool :=
   match it with
   | FPlain p hd e => wf_pos p && wf_hd p hd && wf_xls (env_at None) e && small e
   | FShared p hd rng cuse e => wf_pos p && wf_hd p hd && wf_xls (env_at (Some p)) e && small e
   | FArray p hd rng flags e => wf_pos p && wf_hd p hd && wf_xls (env_at None) e && small e
   | FMember p hd first => wf_pos p && wf_hd p hd && wf_pos first
-  | FOther t _ => negb ((t =? 0x000A) || (t =? 0x0006) || (t =? 0x04BC) || (t =? 0x0221))
+  | FOther t _ => negb ((t =? 0x000A) || (t =? 0x0006) || (t =? 0x04BC) || (t =? 0x0221) || (t =? 0x0809))
+  | FSub _ recs => fbalanced 0 recs
   end.
 (* well-formed items; no two groups start at the same cell *)
 Definition wf_layout (l : list fitem) : Prop :=
